@@ -9,7 +9,7 @@ import os
 import sys
 
 sys.path.insert(0, os.path.dirname(os.path.abspath(__file__)))
-from tagblock_common import hx, with_checksum, ais_line  # noqa: E402
+from tagblock_common import hx, with_checksum, ais_line, multi_lines  # noqa: E402
 
 GEN = []
 RULE = ('sequences of single-fragment AIS sentences, each with no tag block, a tag block without group, a group of one, '
@@ -134,7 +134,10 @@ def by_content(lines_tb):
 
 
 def view_lists(lists, index):
-    return [[index[x.raw] for x in lst] for lst in lists]     # the bare lines are pairwise different
+    # the bare lines are pairwise different.  A reader assembles a multi-fragment message IN the object of its first
+    # fragment (its .raw becomes the fragments joined by LF), and that object is the one sitting in the group list:
+    # identify it by the first line of .raw
+    return [[index[x.raw.split(b'\n')[0]] for x in lst] for lst in lists]
 
 
 def feed_iter(items, order):
@@ -524,6 +527,15 @@ def run(ctx):
         orders = list(interleavings(sizes, nu))
         sample += [(items, o) for o in rng.sample(orders, min(len(orders), 10))]
     check_batch(ctx, sample, 'random+readers', readers=True)
+    # the typical use: the fragments of a multi-fragment message form one group (in both orders of the ungrouped line)
+    for _ in range(ctx.budget(10, 100)):
+        parts = multi_lines(rng)
+        gid = rng.randrange(1000)
+        items = [Item((k + 1, len(parts), gid), group_tb(rng, k + 1, len(parts), gid), p) for k, p in enumerate(parts)]
+        items.append(Item(None, None, ais_line(rng, 77)))
+        order = list(range(len(parts)))
+        order.insert(rng.randrange(len(order) + 1), len(parts))
+        check_batch(ctx, [(items, tuple(order))], 'fragments-as-group', readers=True)
     # boundary sequences (mostly outside the provisos: model comparison, passthrough clause)
     for label, specs in boundary_sequences(rng):
         items = mk_items(rng, specs)
@@ -562,10 +574,15 @@ def replay(ctx, data):
     class C:
         pass
     c = C()
-    c.rep, c.model, c.rng, c.quick = rep, ctx.model, ctx.rng, True
+    own = None if ctx.model else vlib.FastModel()       # the specification (and the provisos) come from the extracted Spec
+    c.rep, c.model, c.rng, c.quick = rep, ctx.model or own, ctx.rng, True
     items = []
     for k, (tb, g) in enumerate(zip(data['tbs'], data['grps'])):
         grp = None if g == 'None' else tuple(int(x) for x in g.split(','))
         items.append(Item(grp, None if tb == 'None' else (b'' if tb == '-' else bytes.fromhex(tb)), ais_line(ctx.rng, k)))
-    check_batch(c, [(items, tuple(range(len(items))))], 'random', readers=data.get('entry') in ('IterMessages', 'NMEAQueue'))
+    try:
+        check_batch(c, [(items, tuple(range(len(items))))], 'replay', readers=data.get('entry') in ('IterMessages', 'NMEAQueue'))
+    finally:
+        if own:
+            own.close()
     return rep.violations[0]['what'] if rep.violations else None
